@@ -223,3 +223,80 @@ func TestVxC16PartialFill(t *testing.T) {
 		Run: func(ci interface{}, k *vstats.Case) error { return vxRunC16Partial(ci.(*vxC16PartialCase), k) },
 	})
 }
+
+// ---------------------------------------------------------------------------------------------
+// A Dialer / HostDialer whose connections are not TCP connections (a tunnel, a unix socket, net.Pipe): the
+// address of the peer is then no *net.TCPAddr. The session must come up and follow the cluster all the same.
+
+type vxNonTCPDialer struct{ cl *vnode.Cluster }
+
+type vxNonTCPConn struct{ net.Conn }
+
+type vxTunnelAddr string
+
+func (a vxTunnelAddr) Network() string { return "tunnel" }
+func (a vxTunnelAddr) String() string  { return string(a) }
+
+func (c vxNonTCPConn) RemoteAddr() net.Addr { return vxTunnelAddr("tunnel:" + c.Conn.RemoteAddr().String()) }
+func (c vxNonTCPConn) LocalAddr() net.Addr  { return vxTunnelAddr("tunnel:local") }
+
+func (d *vxNonTCPDialer) DialContext(ctx context.Context, network, addr string) (net.Conn, error) {
+	c, err := d.cl.DialContext(ctx, network, addr)
+	if err != nil {
+		return nil, err
+	}
+	return vxNonTCPConn{c}, nil
+}
+
+type vxC16TunnelCase struct {
+	Proto int `json:"proto"`
+	N     int `json:"n"`
+}
+
+func vxRunC16Tunnel(c *vxC16TunnelCase, k *vstats.Case) error {
+	if c.Proto < 1 || c.Proto > 5 || c.N < 1 || c.N > 3 {
+		return nil
+	}
+	specs := vxSpecs(c.N+1, 1)
+	cl := vnode.NewCluster(specs[:c.N])
+	s, err := vxClusterConfig(cl, c.Proto, func(cfg *ClusterConfig) {
+		cfg.Dialer = &vxNonTCPDialer{cl: cl}
+		cfg.PoolConfig.HostSelectionPolicy = RoundRobinHostPolicy()
+	}).CreateSession()
+	if err != nil {
+		return fmt.Errorf("CreateSession over connections whose peer address is no *net.TCPAddr: %v", err)
+	}
+	defer s.Close()
+	if got := len(s.ring.allHosts()); got != c.N {
+		return fmt.Errorf("the ring has %d hosts, the cluster reports %d", got, c.N)
+	}
+	for i := 0; i < 2*c.N; i++ {
+		if err := s.Query("LIST x").Exec(); err != nil {
+			return fmt.Errorf("query %d: %v", i, err)
+		}
+	}
+	// and the picture follows the cluster: a node joins
+	cl.AddNode(specs[c.N])
+	cl.SetTruth(specs)
+	if err := s.refreshRing(); err != nil {
+		return fmt.Errorf("refreshRing: %v", err)
+	}
+	if got := len(s.ring.allHosts()); got != c.N+1 {
+		return fmt.Errorf("after a node joined the ring has %d hosts, the cluster reports %d", got, c.N+1)
+	}
+	k.NonTrivial()
+	k.Class(fmt.Sprintf("non-TCP dialer: v%d n=%d", c.Proto, c.N))
+	return nil
+}
+
+func TestVxC16NonTCPDialer(t *testing.T) {
+	vx.Check(t, vx.Prop{
+		ID: "C16", Part: "TestVxC16NonTCPDialer",
+		Rule: "protocol 1..5, 1..3 nodes, a Dialer whose connections report a peer address that is no *net.TCPAddr; oracle: CreateSession succeeds without a panic, the ring holds the nodes the cluster reports, queries succeed, a node that joins is in the ring after a refresh; every case is non-trivial; distinct by the case",
+		Draw: func(t *rapid.T) interface{} {
+			return &vxC16TunnelCase{Proto: rapid.IntRange(1, 5).Draw(t, "proto"), N: rapid.IntRange(1, 3).Draw(t, "n")}
+		},
+		New: func() interface{} { return &vxC16TunnelCase{} },
+		Run: func(ci interface{}, k *vstats.Case) error { return vxRunC16Tunnel(ci.(*vxC16TunnelCase), k) },
+	})
+}
